@@ -292,6 +292,53 @@ def licence_events(M, jp, jR, rnd, extra_pairs=4):
     return out
 
 
+def long_licence_events(ctx, rnd, quick):
+    """Patterns of 33-40 points (grids whose column / row numbers leave 32 bits): what the real code licenses there cannot be
+    explored by meaning, but a wrong licence has a small witness - the pattern's own points plus one point in the licensed
+    cell and at most one more.  The harness looks for such a permutation with the library's own containment test (fast,
+    not trusted) and hands it to TLC as a Refuted event: only a witness the specification confirms counts."""
+    ev = []
+    nlic = ncand = 0
+    for it in range(5 if quick else 40):
+        n = rnd.choice([33, 33, 34, 36, 40])
+        p = list(range(n))
+        for _ in range(rnd.randint(1, 3)):                 # a few adjacent transpositions: points with close neighbours
+            i = rnd.choice([rnd.randrange(n - 1), rnd.randrange(3), n - 2 - rnd.randrange(3)])
+            p[i], p[i + 1] = p[i + 1], p[i]
+        edge = [0, 1, 2, n - 2, n - 1, n, 31, 32, 33]
+        R = set()
+        for _ in range(rnd.randint(1, 5)):                 # shaded cells near the border, across the 32nd line, near the swaps
+            R.add((rnd.choice(edge + [rnd.randint(0, n)]), rnd.choice(edge + [rnd.randint(0, n)])))
+        M = MeshPatt(Perm(p), sorted(R))
+        jp, jR = list(p), [list(c) for c in sorted(R)]
+        cells = [(x, y) for x in range(n + 1) for y in range(n + 1) if (x, y) not in R]
+        licensed = []
+        for c in cells:
+            st, got = util.call(M.can_shade, c)
+            if st == "raise":
+                ctx.violation({"kind": "long pattern", "p": jp, "R": jR, "cell": list(c)}, "NoException", "a list", got)
+            elif got:
+                licensed.append(c)
+        rnd.shuffle(licensed)
+        # cells whose row or column holds a shaded cell first: their licences depend on it
+        licensed.sort(key=lambda c: not any(c[0] == a or c[1] == b for a, b in R))
+        for c in licensed[: (6 if quick else 12)]:
+            nlic += 1
+            M1 = M.add_point(c)
+            shaded = M.shade(c)
+            cands = [Perm(M1.pattern)]
+            for d in [(a, b) for a in range(n + 2) for b in range(n + 2) if (a, b) not in M1.shading
+                      and (abs(a - c[0]) <= 2 or abs(b - c[1]) <= 2 or rnd.random() < 0.05)]:
+                cands.append(Perm(M1.add_point(d).pattern))
+            for q in cands:
+                ncand += 1
+                if q.contains(M) and not q.contains(shaded):
+                    ev.append({"op": "Refuted", "p": jp, "R": jR, "cells": [list(c)], "q": list(q)})
+                    break
+    ctx.note("long_patterns", {"licences_examined": nlic, "witness_candidates_tried": ncand, "witnesses_offered_to_TLC": len(ev)})
+    return ev
+
+
 def weak_hash_events(ctx):
     """Run in the weak-hash interpreter (harness/weakhash.py): the diagram-level events, recorded where patterns share a few hash values."""
     return cheap_events(ctx, util.rng(ctx, 1818), True)
@@ -375,6 +422,13 @@ def run(ctx):
         ev4 += got[:2]
     cheap = cheap_events(ctx, rnd, quick)
     cheap += util.weak_hash_finish(ctx, weak, "c18")
+    cheap += long_licence_events(ctx, rnd, quick)
+    # the witness check itself must have teeth: a made-up licence (the one-point pattern with its south-west cell shaded, shading the north-east cell too,
+    # refuted by 01) is confirmed by the specification
+    bogus = util.validate_trace(ctx, "Trace_C18", [{"op": "Refuted", "p": [0], "R": [[0, 0]], "cells": [[1, 1]], "q": [0, 1]}], constants=dict(
+        {"Mode": '"trace"', "MinMesh": 0, "MaxMesh": 0, "MaxPerm": 5, "Shard": 0, "NShards": 1, "Sample": "{}"}), ntraces=0)
+    if [b["clause"] for b in bogus["verdict"]] != ["LicenceChangesMeaning"]:
+        raise tlc.MachineryFailure("C18: a made-up wrong licence with its witness was not confirmed by Trace_C18")
     # validated in parallel chunks (each licence costs ~150 containment tests)
     chunks = [events[i::8] for i in range(8)]
     k = {"Mode": '"trace"', "MinMesh": 0, "MaxMesh": 0, "MaxPerm": 5, "Shard": 0, "NShards": 1, "Sample": "{}"}
